@@ -4,6 +4,7 @@
 // vector = sequence of scalars, no entropy from anywhere else. Law oracle (statistical, DKW at 1e-12):
 // pools collected while other samplers interleave on the same generator.
 #include "../sim/sim.hpp"
+#include "../sim/preempt.hpp"
 
 #include <algorithm>
 #include <random>
@@ -35,10 +36,13 @@ enum Probe
 	P_VPOISSON,
 	P_PRISTINE,
 	P_ABORTED,
+	P_CONC,
+	P_CONC_POINTS,
+	P_CONC_SWITCHES,
 	P_KIND0,
 	P_NPROBES = P_KIND0 + 9
 };
-const char* PROBE_NAMES[] = {"sampler_ops", "replay_from_state_checks", "poisson_mean_above_500", "poisson_mean_above_1000", "metropolis_bounded_domain_calls", "rejection_loop_10_or_more_iterations", "rejection_inefficiency_warning_branch", "fault_generator_edge_seed(0,1,5489,2^32-1)", "fault_generator_discard", "op_started_from_used_generator_state", "metropolis_grid_triples", "law_pools", "law_samples", "law_interleaved_intruder_calls", "vector_poisson_ops", "comparisons_with_a_pristine_process", "fault_user_callback_throws_mid_call", "kind_uniform", "kind_gauss", "kind_poisson", "kind_inverse_transform", "kind_rejection", "kind_rejection_2d", "kind_metropolis", "kind_metropolis_2d", "kind_vector_poisson"};
+const char* PROBE_NAMES[] = {"sampler_ops", "replay_from_state_checks", "poisson_mean_above_500", "poisson_mean_above_1000", "metropolis_bounded_domain_calls", "rejection_loop_10_or_more_iterations", "rejection_inefficiency_warning_branch", "fault_generator_edge_seed(0,1,5489,2^32-1)", "fault_generator_discard", "op_started_from_used_generator_state", "metropolis_grid_triples", "law_pools", "law_samples", "law_interleaved_intruder_calls", "vector_poisson_ops", "comparisons_with_a_pristine_process", "fault_user_callback_throws_mid_call", "pairs_of_calls_run_on_two_threads_at_once", "scheduling_points_(static_storage_accesses)_inside_paired_calls", "preemptions_inside_paired_calls", "kind_uniform", "kind_gauss", "kind_poisson", "kind_inverse_transform", "kind_rejection", "kind_rejection_2d", "kind_metropolis", "kind_metropolis_2d", "kind_vector_poisson"};
 enum Metric
 {
 	M_DKW,	 // worst D / bound
@@ -460,6 +464,59 @@ struct Exec
 			ctx.violate("C18:sample-count", fmt("Sample_Metropolis_2D returned %zu samples, requested %u (thinning %u, burn_in %u)", out.size() / 2, s.sample, s.thin, s.burn) + "; " + describe(s));
 		if(s.kind == 8 && out.size() != s.p.size())
 			ctx.violate("C18:sample-count", fmt("vector Sample_Poisson returned %zu values for %zu means", out.size(), s.p.size()));
+	}
+
+	// Two callers inside the library at once, each with a generator of its own: "consumes randomness only from the generator passed
+	// to it" means that neither call can tell. The two calls (each repeated `reps` times) run on two threads under the pre-emptive
+	// scheduler of sim/preempt.cpp and must give exactly the outputs and final generator states of the same calls made one after
+	// the other.
+	void exec_conc(const Op& o)
+	{
+		size_t bar = o.s.find(" || ");
+		Op oa, ob;
+		Spec sa, sb;
+		if(bar == std::string::npos || !Op::parse(o.s.substr(0, bar), oa) || !Op::parse(o.s.substr(bar + 4), ob) || !op_spec(oa, sa) || !op_spec(ob, sb) || o.i.size() < 6)
+			return;
+		int mode = (int) o.i[0], reps = (int) std::max(1ll, std::min(50ll, o.i[5]));
+		uint64_t arg = (uint64_t) std::max(1ll, o.i[1]);
+		uint32_t seed_a = (uint32_t) o.i[2], seed_b = (uint32_t) o.i[3];
+		auto many = [reps](std::mt19937& g, const Spec& s, std::vector<double>& out) {
+			for(int k = 0; k < reps; k++)
+			{
+				std::vector<double> v = draw(g, s);
+				out.insert(out.end(), v.begin(), v.end());
+			}
+		};
+		std::mt19937 ga(seed_a), gb(seed_b), ga2(seed_a), gb2(seed_b);
+		std::vector<double> a1, b1, a2, b2;
+		many(ga, sa, a1);
+		many(gb, sb, b1);
+		sim::preempt::Stats st = sim::preempt::run_pair([&] { many(ga2, sa, a2); }, [&] { many(gb2, sb, b2); }, (uint64_t) o.i[4], mode, arg);
+		ctx.probe(P_CONC);
+		ctx.probe(P_CONC_POINTS, st.points);
+		ctx.probe(P_CONC_SWITCHES, st.switches);
+		ctx.log.u64(a2.size());
+		ctx.log.u64(b2.size());
+		auto same = [](const std::vector<double>& x, const std::vector<double>& y) {
+			if(x.size() != y.size())
+				return false;
+			for(size_t k = 0; k < x.size(); k++)
+				if(!same_bits(x[k], y[k]))
+					return false;
+			return true;
+		};
+		for(int w = 0; w < 2; w++)
+		{
+			const std::vector<double>&x = w ? b1 : a1, &y = w ? b2 : a2;
+			bool gen_same = w ? (gb == gb2) : (ga == ga2);
+			if(!same(x, y) || !gen_same)
+			{
+				size_t d = 0;
+				while(d < x.size() && d < y.size() && same_bits(x[d], y[d]))
+					d++;
+				ctx.violate("C18:concurrent-callers", fmt("%d call(s) of %s on a generator of their own (seed %u) give other results while another thread is inside %s with ITS own generator than when made alone: %zu vs %zu values, first difference at #%zu (%.17g alone, %.17g with the other caller), final generator state %s; %llu scheduling points, %llu pre-emptions", reps, describe(w ? sb : sa).c_str(), w ? seed_b : seed_a, describe(w ? sa : sb).c_str(), x.size(), y.size(), d, d < x.size() ? x[d] : 0.0, d < y.size() ? y[d] : 0.0, gen_same ? "equal" : "different", (unsigned long long) st.points, (unsigned long long) st.switches));
+			}
+		}
 	}
 
 	void exec_sampler(const Spec& s)
@@ -898,6 +955,8 @@ struct Exec
 					fresh_state = false;
 				}
 			}
+			else if(o.kind == "conc")
+				exec_conc(o);
 			else if(o.kind == "law")
 				exec_law(o);
 			else if(o.kind == "chain")
@@ -1091,6 +1150,7 @@ struct Gen
 	Plan history_plan()
 	{
 		Plan p;
+		double conc_frac = atof(opts.get("conc_frac", "0.02").c_str());
 		bool thorough = opts.tier == "thorough";
 		int ncl		  = (int) r.irange(1, 4);
 		std::vector<Spec> bound;
@@ -1174,6 +1234,21 @@ struct Gen
 					s.sample = t.sample, s.thin = t.thin, s.burn = t.burn;
 				}
 				s.pristine = r.chance(0.05) ? 1 : 0;
+				if(r.chance(conc_frac))
+				{
+					// two callers at once, each with its own generator (see exec_conc)
+					Spec a = s, b = r.chance(0.6) ? random_spec(s.kind, false) : bound[r.below(ncl)];
+					a.pristine = b.pristine = 0;
+					if(a.kind == 6 || a.kind == 7)
+						a.sample = std::min(a.sample, 20u), a.burn = std::min(a.burn, 30u);
+					if(b.kind == 6 || b.kind == 7)
+						b.sample = std::min(b.sample, 20u), b.burn = std::min(b.burn, 30u);
+					Op c("conc");
+					int mode = (int) r.below(3);
+					c.i = {mode, mode == 0 ? (long long) r.irange(1, 4) : mode == 1 ? (long long) r.pick(std::vector<long long>{8, 30, 200, 2000}) : (long long) r.pick(std::vector<long long>{2, 5, 20}), (long long) (r.next() & 0xffffffffu), (long long) (r.next() & 0xffffffffu), (long long) (r.next() & 0xffffffffu), (long long) r.pick(std::vector<long long>{1, 3, 10, 30})};
+					c.s = spec_op(a).text() + " || " + spec_op(b).text();
+					p.ops.push_back(c);
+				}
 				if(s.kind >= 3 && s.kind <= 7 && r.chance(0.04))
 				{
 					Op ab("abort");
